@@ -11,6 +11,9 @@ Case (JSON-able):
   alls : [cb, ...]                               initial `packet_received` callbacks, in order
   pkts : [header byte, ...]
   plens: optional [payload length, ...] parallel to pkts (default 2 bytes each)
+  ext  : optional {point: [op, ...]} operations performed by ANOTHER THREAD while the dispatcher waits at a hand-over point:
+         'S:n' before packet n is fetched, 'A0:n' after Caller.call copied its list, 'A:n:k' after the k-th packet_received
+         callback, 'P0:n' after the list of matching registrations was built, 'P:n:k' after the k-th port callback
   beh  : {str(cb): [[op, ...], ...]}             op = ['addh'|'remh', port, pmask, chan, cmask, cb, via]
                                                     | ['addall'|'remall', cb] | ['raise']
          via = 'hdr' (all five arguments given), 'def' (masks left to their 0xFF defaults),
@@ -54,6 +57,44 @@ class ScriptedLink:
 
 
 _CF = []
+_WORKER = []
+
+
+class _Worker:
+    """The 'other thread': a real user thread that performs table operations while the dispatcher (the harness thread
+    inside the real run()) waits at a hand-over point.  Hand-over is explicit, so every run is deterministic."""
+
+    def __init__(self):
+        import queue
+        import threading
+        self.q = queue.Queue()
+        self.done = threading.Event()
+        self.errors = []
+        t = threading.Thread(target=self._loop, name='c07-user-thread', daemon=True)
+        t.start()
+        self.ident = t.ident
+
+    def _loop(self):
+        while True:
+            run, ops = self.q.get()
+            for op in ops:
+                try:
+                    run._do(op)
+                except Exception as e:      # stays in the user thread (e.g. ValueError of Caller.remove_callback)
+                    self.errors.append(type(e).__name__)
+            self.done.set()
+
+    def perform(self, run, ops):
+        self.done.clear()
+        self.q.put((run, ops))
+        return self.done.wait(10)
+
+
+def _the_worker():
+    if not _WORKER:
+        _WORKER.append(_Worker())
+    return _WORKER[0]
+
 
 
 def _the_cf():
@@ -81,6 +122,11 @@ class Run:
         self.log = []          # (cb, packet no) in invocation order
         self.calls = {}
         self.fn = {}
+        self.fn_all = {}
+        self.ext = case.get('ext') or {}
+        self.fired = []          # hand-over points at which the other thread acted, in order
+        self.ext_blocked = False
+        self.ka = self.kp = 0
         self.ncalls = 0
         self.pk_index = {}
         self.pkts = []
@@ -103,10 +149,27 @@ class Run:
     def cb(self, c):
         if c not in self.fn:
             def f(pk, _c=c):
-                self._invoked(_c, pk)
+                self._invoked(_c, pk, 'port')
             f.cbid = c
             self.fn[c] = f
         return self.fn[c]
+
+    def cb_all(self, c):
+        if c not in self.fn_all:
+            def f(pk, _c=c):
+                self._invoked(_c, pk, 'all')
+            f.cbid = c
+            self.fn_all[c] = f
+        return self.fn_all[c]
+
+    def _hand_over(self, key):
+        """Hand-over point `key`: the other thread performs the operations the case lists for it."""
+        ops = self.ext.get(key)
+        if ops:
+            self.fired.append(key)
+            if not _the_worker().perform(self, ops):
+                self.ext_blocked = True
+                raise _Stop()
 
     def _do(self, op, setup=False):
         cf = self.cf
@@ -117,9 +180,9 @@ class Run:
         if k == 'raise':
             raise CbRaise()
         if k == 'addall':
-            cf.packet_received.add_callback(self.cb(op[1]))
+            cf.packet_received.add_callback(self.cb_all(op[1]))
         elif k == 'remall':
-            cf.packet_received.remove_callback(self.cb(op[1]))
+            cf.packet_received.remove_callback(self.cb_all(op[1]))
         else:
             port, pmask, chan, cmask, c, via = op[1:7]
             f = self.cb(c)
@@ -132,8 +195,12 @@ class Run:
             else:
                 (cf.add_header_callback if k == 'addh' else cf.remove_header_callback)(f, port, chan, pmask, cmask)
 
-    def _invoked(self, c, pk):
+    def _invoked(self, c, pk, kind='port'):
         n = self.pk_index.get(id(pk), -1)
+        if kind == 'all' and self.ka == 0:
+            self._hand_over('A0:%d' % n)        # Caller.call has taken its copy, no callback called yet
+        if kind == 'port' and self.kp == 0:
+            self._hand_over('P0:%d' % n)        # the list of matching registrations is built, no port callback called yet
         self.log.append((c, n))
         self.ncalls += 1
         if self.ncalls > MAX_CALLS + 40 * len(self.pkts):
@@ -145,11 +212,26 @@ class Run:
         script = scripts[k] if k < len(scripts) else []
         if self.obs is not None:
             self.obs.invoked(c, n)
-        for op in script:
-            self._do(op)
+        if kind == 'all':
+            for op in script:
+                self._do(op)                    # an exception leaves run(): no hand-over any more
+            self.ka += 1
+            self._hand_over('A:%d:%d' % (n, self.ka))
+        else:
+            try:
+                for op in script:
+                    self._do(op)
+            finally:
+                self.kp += 1
+                self._hand_over('P:%d:%d' % (n, self.kp))
 
     def _next(self, i):
         self.cur = i
+        self.ka = self.kp = 0
+        if self.obs is not None and hasattr(self.obs, 'dispatch_over'):
+            self.obs.dispatch_over()
+        if i < len(self.pkts):
+            self._hand_over('S:%d' % i)         # between two dispatches
         if self.obs is not None:
             self.obs.packet_boundary(i)
 
@@ -169,5 +251,6 @@ class Run:
 
 def run_case(case, observer=None):
     r = Run(case, observer).go()
-    return {'log': [list(x) for x in r.log], 'alive': r.died is None and not r.diverged, 'died': r.died,
-            'diverged': r.diverged, 'consumed': r.consumed}
+    return {'log': [list(x) for x in r.log], 'alive': r.died is None and not r.diverged and not r.ext_blocked,
+            'died': r.died, 'diverged': r.diverged, 'consumed': r.consumed, 'fired': list(r.fired),
+            'ext_blocked': r.ext_blocked}
